@@ -74,9 +74,15 @@ def cargo_build(binname, profile):
 
 def record(binpath, tier, seed, outfile, extra=None, timeout=1800, env=None):
     cmd = [binpath, "--tier", tier, "--seed", str(seed), "--out", outfile] + (extra or [])
-    out, dt = run(cmd, timeout=timeout, check=False, env=dict(os.environ, **(env or {})))
-    if not os.path.exists(outfile):
-        raise ToolError("recorder produced no trace: " + out[-2000:])
+    t0 = time.time()
+    try:
+        p = subprocess.run(cmd, timeout=timeout, env=dict(os.environ, **(env or {})), stdout=subprocess.PIPE, stderr=subprocess.STDOUT, text=True)
+    except subprocess.TimeoutExpired:
+        raise ToolError("recorder timed out after %ss" % timeout)
+    out, dt = p.stdout, time.time() - t0
+    if p.returncode != 0 or not os.path.exists(outfile):
+        # a crash of the recorder itself (outside a recorded call) is a tool error, never a verdict
+        raise ToolError("recorder failed (exit %s): %s" % (p.returncode, out[-2000:]))
     return dt
 
 
@@ -206,7 +212,7 @@ def match_finding(ev, findings, prop):
             continue
         if "when" in m:
             try:
-                if not eval(m["when"], {"__builtins__": {}}, dict(d, e=d, len=len, int=int)):
+                if not eval(m["when"], {"__builtins__": {}}, dict(d, e=d, len=len, int=int, abs=abs, min=min, max=max)):
                     continue
             except Exception:
                 continue
